@@ -151,6 +151,12 @@ def _sim_id(obj):
     if d is not None and type(obj).__module__.startswith('mininec'):
         fired('id_assigned')
         return (_sim_hash(obj) << 4) + 0x7f0000000000
+    # any other object (numpy arrays, tuples, bound methods ...): the real
+    # address in the history, its complement in the oracle - injective, so
+    # identity look-ups keep working, but every order by id() is reversed
+    o = _ORACLE[0]
+    if o is not None and o.mode == 'rev':
+        return (1 << 62) - id(obj)
     return id(obj)
 
 
